@@ -140,6 +140,9 @@ func c03Compare(c *core.Ctx, root *spec.Node, refRoot *spec.Node, data any, stal
 	var o *run.Outcome
 	execWrap(func() {
 		b := spec.Build(root, nil)
+		if cell == "random schema" && c.R.Intn(3) == 0 {
+			warmAlt(c.R, b)
+		}
 		o = run.Parse(b, data, prior)
 	})
 	c.Eval(1)
@@ -223,6 +226,14 @@ func (c03) RunCase(c *core.Ctx) {
 }
 
 func c03Random(c *core.Ctx) {
+	if c.Case%100 == 0 {
+		if sig, det := sameNamedTypesCheck(c.R); sig != "" {
+			c.Violation(sig, det)
+			return
+		}
+		c.Eval(48)
+		c.Count("same_named_destination_type_rounds", 1)
+	}
 	o := gen.DefaultOpts()
 	o.Coercers = true
 	o.CatchPct = 10
